@@ -27,11 +27,14 @@ package dns
 //@   ensures rel:  !isdot(origin) ==> len(ret0) == len(name) + 1 + len(origin) && ret0[len(name)] == '.' && (forall k in 0..len(origin) :: ret0[len(name) + 1 + k] == origin[k])
 //@   ensures pre:  forall k in 0..len(name) :: ret0[k] == name[k]
 //@   pure
-//@ func toAbsoluteName [C06]
+//@ func toAbsoluteName [C06 C03]
 //@   ensures at:   len(name) == 1 && name[0] == '@' ==> ok == (len(origin) > 0) && (ok ==> absolute == origin)
 //@   ensures abs:  ok && !(len(name) == 1 && name[0] == '@') && IsFqdnSpec(name) ==> absolute == name
 //@   ensures rel:  ok && !(len(name) == 1 && name[0] == '@') && !IsFqdnSpec(name) ==> len(origin) > 0 && len(absolute) >= len(name) + 1 && absolute[len(name)] == '.' && (forall k in 0..len(name) :: absolute[k] == name[k])
 //@   ensures nonempty: ok ==> len(absolute) > 0
+// the parser never emits a name it would itself refuse: a relative name and an origin that are each within the
+// limits can add up to more than 255 octets, so the completed name is judged again [C03]
+//@   exit limit: ok && called("appendOrigin") ==> callres("IsDomainName", 1) && callarg("IsDomainName", 0) == absolute [C03 C06]
 //@   pure
 
 // the zone parser's line state machine: while no class token has been seen on a line the class is IN
